@@ -49,9 +49,9 @@ class C11(Prop):
 
     def shards(self, tier, seed):
         if tier == "quick":
-            return [["--seed", str(seed), "--n", "10"] for _ in range(NCPU)]
+            return [["--seed", str(seed), "--n", "8"] for _ in range(NCPU)]
         procs = [1, 2, 4, 8, 16]
-        return [["--seed", str(seed), "--n", str(max(1, 2000 // NCPU)), "--mode", "p%d" % procs[k % len(procs)]]
+        return [["--seed", str(seed), "--n", str(max(1, 1200 // NCPU)), "--mode", "p%d" % procs[k % len(procs)]]
                 for k in range(NCPU)]
 
     def search_shards(self, tier, seed, round_no):
